@@ -67,19 +67,33 @@ def serializeEnd (plus : Plus) (a : Annotation) : List Char :=
 def serialize (plus : Plus) (a : Annotation) : List Char :=
   serializeStart plus a ++ serializeMiddle plus a ++ serializeEnd plus a
 
-/-- the chain joiner of `MultiProFormaAnnotation.serialize`: `connection is True` writes two backslashes
-(the parser reads `//`: known finding KF-C01-crosslink-backslash), anything else writes `+`.
-`self.connections[i]` past the end of the list is an IndexError. -/
-def serializeMulti (plus : Plus) : List Annotation → List (Option Bool) → Except Err (List Char)
+/-- what `MultiProFormaAnnotation.serialize` writes for a `True` connection: two backslashes (`r'\\\\'`), although the
+parser reads `//` (known finding KF-C01-crosslink-backslash). The day the joiner is repaired only this constant changes. -/
+def crosslinkJoinerAsCoded : List Char := ['\\', '\\']
+
+/-- the joiner the parser reads -/
+def crosslinkJoinerFixed : List Char := ['/', '/']
+
+/-- `MultiProFormaAnnotation.serialize` with the crosslink joiner as a parameter: `connection is True` writes `xj`,
+anything else writes `+`. `self.connections[i]` past the end of the list is an IndexError. -/
+def serializeMultiWith (xj : List Char) (plus : Plus) : List Annotation → List (Option Bool) → Except Err (List Char)
   | [], _ => .ok []
   | [a], _ => .ok (serialize plus a)
   | a :: b :: rest, conns =>
     match conns with
     | [] => .error .index
     | cn :: conns' =>
-      match serializeMulti plus (b :: rest) conns' with
+      match serializeMultiWith xj plus (b :: rest) conns' with
       | .error e => .error e
-      | .ok t => .ok (serialize plus a ++ (if cn = some true then ['\\', '\\'] else ['+']) ++ t)
+      | .ok t => .ok (serialize plus a ++ (if cn = some true then xj else ['+']) ++ t)
+
+/-- the code as it is -/
+def serializeMulti (plus : Plus) : List Annotation → List (Option Bool) → Except Err (List Char) :=
+  serializeMultiWith crosslinkJoinerAsCoded plus
+
+/-- the serializer with the corrected joiner (not the code: used to state the round trip relative to the repair) -/
+def serializeMultiFixed (plus : Plus) : List Annotation → List (Option Bool) → Except Err (List Char) :=
+  serializeMultiWith crosslinkJoinerFixed plus
 
 def serializeParsed (plus : Plus) : Parsed → Except Err (List Char)
   | .single a => .ok (serialize plus a)
